@@ -230,10 +230,16 @@ func (w *World) noteStreamID(method string, id int64) {
 	if w.ids == nil {
 		w.ids = map[int]int64{}
 	}
-	if _, ok := w.ids[r]; !ok {
+	_, seen := w.ids[r]
+	if !seen {
 		w.ids[r] = id
 	}
+	rs := w.rpcs[r]
 	w.mu.Unlock()
+	if !seen && rs != nil && rs.invoke {
+		rs.started = true
+		w.logf("ret who=cw%d op=new res=ok ctxtc=%d", r, rs.tunnel)
+	}
 }
 
 func descC(m *tunnelpb.ClientToServer) string {
@@ -381,6 +387,7 @@ type rpcState struct {
 	started  bool
 	order    int64 // stream id observed on the tap for this rpc
 	picked   int   // tunnel that carries the rpc (from the stream's context)
+	invoke   bool  // made through Invoke: the start of the stream is observed on the tap
 	viaMulti string
 }
 
@@ -477,6 +484,9 @@ func (w *World) handlerStarted(h *handState) {
 	w.allHands = append(w.allHands, h)
 	w.hmu.Unlock()
 	w.logf("hstart r=%d shape=%s md=%s deadline=%s tmd=%s peer=%s icpt=%s", h.r, h.shape, encMD(md), dl, tmds, encStr(pa), encStr(ic))
+	// mutate what the accessors returned; no other RPC may ever see it
+	scribble(tmd)
+	scribble(md)
 }
 
 func (w *World) runUnaryHandler(r int, ctx context.Context, dec func(interface{}) error) (interface{}, error) {
